@@ -126,8 +126,9 @@ def wt : Val → Bool
     decide (bits < 2 ^ N) && vs.isList && decide (vs.elems.length = N) && valuesOk bits 0 vs.elems && limitsOk bits vs.elems
   | _ => false
 
+/-- what `decode_static` produces: declared bits only, all values still at their default -/
 def pwt : Val → Bool
-  | .pair (.int bits) _ => decide (bits < 2 ^ N)
+  | .pair (.int bits) vs => decide (bits < 2 ^ N) && decide (vs = Val.ofList (List.replicate N (.int 0)))
   | _ => false
 
 def partialOf : Val → Val
